@@ -62,6 +62,31 @@ _MODELLED_EXC = (ValueError, TypeError, KeyError, IndexError, AttributeError, Lo
                  OverflowError, StopIteration)
 
 
+class Scope(dict):
+    """A local scope that falls back to an enclosing environment (no copying of the globals per call)."""
+    __slots__ = ('parent',)
+
+    def __init__(self, parent):
+        dict.__init__(self)
+        self.parent = parent
+
+    def __missing__(self, k):
+        return self.parent[k]
+
+    def __contains__(self, k):
+        return dict.__contains__(self, k) or k in self.parent
+
+    def get(self, k, d=None):
+        try:
+            return self[k]
+        except KeyError:
+            return d
+
+
+def child(env):
+    return Scope(env)
+
+
 class Sym:
     """Opaque symbolic value; arithmetic keeps it symbolic, branching on it is Unknown."""
     __slots__ = ('name',)
@@ -203,9 +228,20 @@ _SAFE_METHODS = {
 import itertools as _it  # noqa: E402
 import functools as _ft  # noqa: E402
 
+class _Chain:
+    _model = ('from_iterable',)
+
+    def __call__(self, *a):
+        return list(_it.chain(*a))
+
+    @staticmethod
+    def from_iterable(it):
+        return list(_it.chain.from_iterable(it))
+
+
 _STDLIB_PURE = {   # side-effect-free stdlib helpers the repository imports by name
     ('itertools', 'product'): lambda *a, **k: list(_it.product(*a, **k)),
-    ('itertools', 'chain'): lambda *a: list(_it.chain(*a)),
+    ('itertools', 'chain'): _Chain(),
     ('itertools', 'repeat'): lambda x, n: [x] * n,
     ('itertools', 'islice'): lambda it, *a: list(_it.islice(it, *a)),
     ('itertools', 'zip_longest'): lambda *a, **k: list(_it.zip_longest(*a, **k)),
@@ -375,7 +411,7 @@ class LambdaVal:
         names = [a.arg for a in self.node.args.args]
         if len(names) != len(args):
             raise Unknown('lambda arity')
-        e = dict(self.env)
+        e = Scope(self.env)
         e.update(zip(names, args))
         return ev(self.node.body, e)
 
@@ -411,7 +447,7 @@ def _comp(gens, env, leaf):
         if isinstance(it, Sym):
             raise Unknown('comprehension over symbolic iterable')
         for v in it:
-            e2 = dict(e)
+            e2 = Scope(e)
             _bind(g.target, v, e2)
             if all(ev(c, e2) for c in g.ifs):
                 yield from rec(i + 1, e2)
